@@ -234,3 +234,212 @@ Example ex_boundary :
   /\ filter_result [] (p_flt "lt" [s2b "18446744073709551615"]) (VU64 18446744073709551614) = Ok (Some true)
   /\ filter_result [] (p_flt "gt" [s2b "18446744073709551616"]) (VU64 1) = Err.
 Proof. repeat split. Qed.
+
+(* ------------------------------------------------------------------ *)
+(* Bridge pushdown -> cache (C08, "Bridge cache->rows")                *)
+(* ------------------------------------------------------------------ *)
+(* Model/BridgePush.v, Proofs/BridgePushP.v.  The cache->rows bridge
+   (Properties/C08.v) takes [keep] (the logs the rows depend on) and [want]
+   (the filter the call sent) as parameters with the premise
+   [forall lg, keep lg = true -> want lg = true].  Here both come from the
+   declaration [d], through a reader [rd] of the client model's payloads:
+   [PV.want_of rd d] = what a node does with the addresses / topics Filter()
+   sends ([node_pass (push_addrs d) (push_topics d)]); [PV.keep_of rd d] =
+   processLog's gate passes and the aggregation [agg] of the decisions
+   [filter_result] of the declared positive literal log_addr filters does not
+   reject ([PD.keep_log]; filters that need the enclosing items or the
+   database cannot be decided on the log: [true] when filter_agg is "or" and
+   such a filter is active). *)
+From Shovel Require Model.Client Model.ClientSpec Model.CacheClient Model.BridgeCacheTask
+  Model.BridgeCacheRows Model.BridgeRowsTask Model.TaskTypes Model.TaskSpec
+  Proofs.BridgeClientTaskP Proofs.BridgePushP.
+From Shovel Require Import Model.BridgePush.
+Import BridgeCacheRows.
+
+(* (1) keep is within want: the premise of the cache->rows bridge, for the
+   declaration's own request.  Side conditions: well-formed signature hash,
+   20-byte address (the indexing mode plays no role here) *)
+Theorem declared_keep_within_pushdown : forall rd d,
+  wf_bytes (d_sighash d) ->
+  forall lg, length (ob (l_addr (C11V.rd_log rd lg))) = 20%nat ->
+    PV.keep_of rd d lg = true -> PV.want_of rd d lg = true.
+Proof. exact BridgePushP.V.declared_keep_within_pushdown. Qed.
+Print Assumptions declared_keep_within_pushdown.
+
+(* ... and the address length is needed: "contains" accepts a 21-byte address
+   containing the argument, the node compares for equality *)
+Theorem declared_keep_needs_address_length : ~ PV.keep_within_pushdown_any_length_full.
+Proof. exact BridgePushP.X.keep_within_pushdown_needs_addr20. Qed.
+Print Assumptions declared_keep_needs_address_length.
+
+(* "emitted iff accepted", the direction the bridge needs: a log for which
+   processLog emits a row -- any database, any enclosing block / transaction --
+   passes [keep_log]; so a log failing it contributes no row *)
+Theorem emitted_log_passes_declared_keep : forall d dbs e l rows,
+  process_log fixed d dbs e l = Ok rows -> rows <> [] -> e_l e = Some l ->
+  PD.keep_log d l = true.
+Proof. exact BridgePushP.D.emitted_within_keep_log. Qed.
+Print Assumptions emitted_log_passes_declared_keep.
+
+(* (3) restricting the delivered blocks to [keep_of] loses no row: Insert on
+   the blocks with every other log erased returns the same rows, same order *)
+Theorem keep_restriction_loses_no_rows : forall rd d c dbs bs rows,
+  indexing fixed d = IxLog ->
+  insert fixed d c dbs (map (C11V.conv rd) bs) = Ok rows ->
+  insert fixed d c dbs (map (C11V.conv rd) (map (C11V.restrict (PV.keep_of rd d)) bs)) = Ok rows.
+Proof. exact BridgePushP.V.keep_restriction_loses_no_rows. Qed.
+Print Assumptions keep_restriction_loses_no_rows.
+
+(* ... composed with C08 [c11_insert_ignores_withheld_logs]: what the node
+   withholds, what the builder cannot use, both, or nothing -- the same rows *)
+Theorem pushdown_and_keep_restrictions_agree : forall rd d c dbs bs rows,
+  indexing fixed d = IxLog -> wf_bytes (d_sighash d) ->
+  (forall b t lg, In b bs -> In t (Client.b_txs b) -> In lg (Client.t_logs t) ->
+     length (ob (l_addr (C11V.rd_log rd lg))) = 20%nat) ->
+  insert fixed d c dbs (map (C11V.conv rd) bs) = Ok rows ->
+  insert fixed d c dbs (map (C11V.conv rd) (map (C11V.restrict (PV.want_of rd d)) bs)) = Ok rows
+  /\ insert fixed d c dbs (map (C11V.conv rd) (map (C11V.restrict (PV.keep_of rd d)) bs)) = Ok rows
+  /\ insert fixed d c dbs
+       (map (C11V.conv rd) (map (C11V.restrict (PV.keep_of rd d)) (map (C11V.restrict (PV.want_of rd d)) bs))) = Ok rows.
+Proof. exact BridgePushP.V.restrictions_agree. Qed.
+Print Assumptions pushdown_and_keep_restrictions_agree.
+
+(* (2) the rows premise of the cache->task bridge for the call of an
+   integration with declaration [d] that sent [want_of rd d] to an honest
+   node: no free keep / want.  [PV.addr20 rd]: every log the reader reads has
+   a 20-byte address *)
+Theorem rows_canon_for_declaration : forall rd d c dbs cch op,
+  CR.citems_wf cch -> PV.addr20 rd -> wf_bytes (d_sighash d) ->
+  CR.attach_on cch (PV.want_of rd d) (CacheClient.cc_s op) (CacheClient.cc_l op) (CacheClient.cc_world op) ->
+  Client.use_receipts (CacheClient.cc_plan op) || Client.use_logs (CacheClient.cc_plan op) = true ->
+  BridgeCacheTask.rows_canon (PV.rowsf_decl rd d c dbs) cch (CR.Jit cch) op.
+Proof. exact BridgePushP.V.rows_canon_for_declaration. Qed.
+Print Assumptions rows_canon_for_declaration.
+
+(* every history [calls] of cached Gets, each made by an integration with its
+   own declaration and sending that declaration's pushdown
+   ([PV.honest_decl_history]: [world_on] + [CR.attach_on] with
+   [want_of rd d_i]); the [i]-th call, of declaration [d], is handed [bs]
+   (any reachable state of the shared caches): the segment the task receives
+   is canon's, with the row function of [d] -- C11's keyed builder on
+   [CR.log_view (keep_of rd d)] *)
+Theorem cached_rows_for_declaration : forall hid rd c dbs cch mx calls i d op bs,
+  CR.citems_wf cch -> PV.addr20 rd -> wf_bytes (d_sighash d) ->
+  PV.honest_decl_history rd cch calls -> nth_error calls i = Some (d, op) ->
+  Client.use_receipts (CacheClient.cc_plan op) || Client.use_logs (CacheClient.cc_plan op) = true ->
+  BridgeCacheTask.cached_result mx (map snd calls) i op bs ->
+  ClientSpec.fetches (CacheClient.cc_plan op) = true ->
+  TaskSpec.canon_seg true (BridgeCacheTask.canon hid (PV.rowsf_decl rd d c dbs) cch)
+    (CacheClient.cc_s op, CacheClient.cc_l op)
+    (TaskTypes.SegOk (map (BridgeClientTaskP.abs hid (PV.rowsf_decl rd d c dbs)) bs)).
+Proof. exact BridgePushP.V.cached_rows_for_declaration. Qed.
+Print Assumptions cached_rows_for_declaration.
+
+Theorem cached_growth_reply_for_declaration : forall hid rd d c dbs cch ps rs,
+  CR.citems_wf cch -> PV.addr20 rd -> wf_bytes (d_sighash d) ->
+  Forall2 (PV.declared_cache_answer hid rd d c dbs cch) ps rs ->
+  TaskSpec.growth_reply true (BridgeCacheTask.canon hid (PV.rowsf_decl rd d c dbs) cch)
+    (TaskTypes.RGet ps) (TaskTypes.RSegs rs).
+Proof. exact BridgePushP.V.cached_growth_reply_for_declaration. Qed.
+Print Assumptions cached_growth_reply_for_declaration.
+
+(* the rows of the view ARE the builder's rows.  For a node's block [cb] in
+   index order (transactions, and each transaction's logs) on which Insert
+   succeeds, the declaration's row function is the keyed builder of the
+   rows->task bridge on the block as a headers + eth_getLogs plan delivers it
+   ([PV.block_hl]: per transaction index, hash, logs) -- stated for the
+   index-sorted NORMALISATION of the delivered block ([CR.log_view]): the
+   cache stores the logs of a shared transaction in arrival order *)
+Theorem declared_rows_are_builder_rows : forall rd d c dbs cb,
+  indexing fixed d = IxLog -> PV.idx_sorted cb ->
+  (exists rows, insert fixed d c dbs [C11V.conv rd (PV.block_hl cb)] = Ok rows) ->
+  PV.rowsf_decl rd d c dbs cb = BridgeRowsTask.rowsf_of (C11V.conv rd) d c dbs (PV.block_hl cb).
+Proof. exact BridgePushP.NV.rowsf_decl_is_builder. Qed.
+Print Assumptions declared_rows_are_builder_rows.
+
+(* ... the order condition is needed *)
+Theorem declared_rows_need_index_order : ~ PV.rowsf_decl_any_order_full.
+Proof. exact BridgePushP.NV.builder_rows_need_index_order. Qed.
+Print Assumptions declared_rows_need_index_order.
+
+(* a block [b] served through the cache for canon's block [cb] ([CR.served]:
+   whatever other integrations attached before): its rows for [d] are the
+   builder's rows on the node's block *)
+Theorem served_rows_are_node_rows : forall rd d c dbs cb b,
+  indexing fixed d = IxLog ->
+  (NoDup (map Client.t_idx (Client.b_txs cb))
+   /\ forall t, In t (Client.b_txs cb) -> NoDup (map Client.l_idx (Client.t_logs t))) ->
+  PV.idx_sorted cb ->
+  (exists rows, insert fixed d c dbs [C11V.conv rd (PV.block_hl cb)] = Ok rows) ->
+  CR.served (PV.keep_of rd d) cb b ->
+  PV.rowsf_decl rd d c dbs b = BridgeRowsTask.rowsf_of (C11V.conv rd) d c dbs (PV.block_hl cb).
+Proof. exact BridgePushP.NV.served_rows_are_node_rows. Qed.
+Print Assumptions served_rows_are_node_rows.
+
+(* (2) with the canonical chain's rows LITERALLY those of the rows->task
+   bridge ([BridgeRowsTask.rowsf_of], Properties/C01.v) on the node's blocks *)
+Theorem cached_rows_for_declaration_literal : forall hid rd c dbs cch mx calls i d op bs,
+  CR.citems_wf cch -> PV.addr20 rd -> wf_bytes (d_sighash d) ->
+  indexing fixed d = IxLog -> PV.node_ok rd d c dbs cch ->
+  PV.honest_decl_history rd cch calls -> nth_error calls i = Some (d, op) ->
+  Client.use_receipts (CacheClient.cc_plan op) || Client.use_logs (CacheClient.cc_plan op) = true ->
+  BridgeCacheTask.cached_result mx (map snd calls) i op bs ->
+  ClientSpec.fetches (CacheClient.cc_plan op) = true ->
+  TaskSpec.canon_seg true
+    (BridgeCacheTask.canon hid (fun b => BridgeRowsTask.rowsf_of (C11V.conv rd) d c dbs (PV.block_hl b)) cch)
+    (CacheClient.cc_s op, CacheClient.cc_l op)
+    (TaskTypes.SegOk (map (BridgeClientTaskP.abs hid (PV.rowsf_decl rd d c dbs)) bs)).
+Proof. exact BridgePushP.NV.cached_rows_for_declaration_literal. Qed.
+Print Assumptions cached_rows_for_declaration_literal.
+
+(* non-vacuity.  Two declarations -- A: event 7 with "log_addr contains
+   <contract A>", B: event 8, no filter -- over the chain of the cache->rows
+   example (block 2: one transaction, log 0 of event 7 by contract A, log 1 of
+   event 8 by contract B).  B reads first; A second and is SERVED B's CACHED
+   SEGMENT: its block 2 carries B's log 1 before its own log 0.  A's rows of
+   that block are the one row of log 0, equal to canon's, and are what the
+   builder emits on the delivered block itself; B's rows are the row of log 1,
+   from its own result and from the block A was handed. *)
+Example ex_two_declarations_one_cached_segment :
+  PV.want_of PX.x_rd PX.dA (Client.mkLog 0 [7]) = true
+  /\ PV.want_of PX.x_rd PX.dA (Client.mkLog 1 [8]) = false
+  /\ push_addrs PX.dA = [encode_hex PX.addr_a] /\ push_addrs PX.dB = []
+  /\ match CacheClient.ccrun (CacheClient.new_cclient 3) (map snd PX.x_calls) with
+     | Some (_, [Ok a; Ok b]) =>
+         map (fun x => map Client.t_logs (Client.b_txs x)) b
+         = [[]; [[Client.mkLog 1 [8]; Client.mkLog 0 [7]]]]
+         /\ map (fun x => BridgeRowsTask.block_krows PX.dA PX.x_ctx []
+                            (C11V.conv PX.x_rd (CR.log_view (PV.keep_of PX.x_rd PX.dA) x))) b
+            = [[]; [(BridgeRowsTask.Key 0 (Some 0) None None, [VU256 5; VBytes (Some PX.addr_a)])]]
+         /\ map (PV.rowsf_decl PX.x_rd PX.dA PX.x_ctx []) b
+            = map (PV.rowsf_decl PX.x_rd PX.dA PX.x_ctx []) (BridgeCacheTask.cseg BridgeCacheTask.ex_cch 1 2)
+         /\ map (PV.rowsf_decl PX.x_rd PX.dA PX.x_ctx []) b
+            = map (fun x => BridgeRowsTask.rowsf_of (C11V.conv PX.x_rd) PX.dA PX.x_ctx [] (PV.block_hl x))
+                  (BridgeCacheTask.cseg BridgeCacheTask.ex_cch 1 2)
+         /\ map (fun x => BridgeRowsTask.block_krows PX.dB PX.x_ctx []
+                            (C11V.conv PX.x_rd (CR.log_view (PV.keep_of PX.x_rd PX.dB) x))) a
+            = [[]; [(BridgeRowsTask.Key 0 (Some 1) None None, [VU256 5; VBytes (Some PX.addr_b)])]]
+         /\ map (PV.rowsf_decl PX.x_rd PX.dB PX.x_ctx []) a = map (PV.rowsf_decl PX.x_rd PX.dB PX.x_ctx []) b
+         /\ TaskSpec.canon_seg true
+              (BridgeCacheTask.canon BridgeCacheTask.ex_hid (PV.rowsf_decl PX.x_rd PX.dA PX.x_ctx []) BridgeCacheTask.ex_cch)
+              (1, 2)
+              (TaskTypes.SegOk (map (BridgeClientTaskP.abs BridgeCacheTask.ex_hid
+                                       (PV.rowsf_decl PX.x_rd PX.dA PX.x_ctx [])) b))
+     | _ => False
+     end.
+Proof. vm_compute. repeat split; try reflexivity; intros H; discriminate H. Qed.
+
+(* the premises of [cached_rows_for_declaration(_literal)] hold for that run *)
+Example ex_declaration_hypotheses_satisfiable :
+  CR.citems_wf BridgeCacheTask.ex_cch /\ PV.addr20 PX.x_rd /\ wf_bytes (d_sighash PX.dA)
+  /\ PV.honest_decl_history PX.x_rd BridgeCacheTask.ex_cch PX.x_calls
+  /\ nth_error PX.x_calls 1 = Some (PX.dA, EX.opA)
+  /\ Client.use_receipts (CacheClient.cc_plan EX.opA) || Client.use_logs (CacheClient.cc_plan EX.opA) = true
+  /\ (exists bs, BridgeCacheTask.cached_result 3 (map snd PX.x_calls) 1 EX.opA bs)
+  /\ ClientSpec.fetches (CacheClient.cc_plan EX.opA) = true
+  /\ indexing fixed PX.dA = IxLog.
+Proof. exact BridgePushP.X.x_hyps. Qed.
+Example ex_declaration_node_ok :
+  PV.node_ok PX.x_rd PX.dA PX.x_ctx [] BridgeCacheTask.ex_cch
+  /\ PV.node_ok PX.x_rd PX.dB PX.x_ctx [] BridgeCacheTask.ex_cch.
+Proof. exact BridgePushP.NV.x_node_ok. Qed.
